@@ -230,6 +230,16 @@ impl<'a> Gen<'a> {
                 }
             }
         }
+        // somebody else mines a penalty the tower is not (yet) tracking
+        for l in 1..=self.nlocs {
+            if self.rng.chance(4, 100) {
+                let p = penalty_num(l, 0);
+                if !self.world.confirmed.contains_key(&p) && !txs.contains(&p) {
+                    self.world.known_txs.insert(p);
+                    txs.push(p);
+                }
+            }
+        }
         if self.rng.chance(30, 100) {
             self.world.next_unrelated += 1;
             txs.push(self.world.next_unrelated);
